@@ -75,6 +75,11 @@ type Result struct {
 	Notes         []string              `json:"notes"`
 	DistinctCount int64                 `json:"distinct_count_local"`
 	HashOverflow  bool                  `json:"hash_overflow"`
+	// SharedCalls / SharedTrace fingerprint the sequence numbers at which this
+	// shard called NextShared: all shards must agree, or shared cases were
+	// skipped or run twice (a data-dependent break between two NextShared calls).
+	SharedCalls int64  `json:"shared_calls"`
+	SharedTrace uint64 `json:"shared_trace"`
 }
 
 // Ctx is the per-worker context handed to Monitor.Run.
@@ -98,6 +103,45 @@ type Ctx struct {
 	maxHash int
 	wal     *os.File
 	curCase string
+
+	held     *heldResult
+	holdTick int
+}
+
+type heldResult struct {
+	enc    string
+	render func() string
+	text   string
+}
+
+// Hold is called at the end of a case with a function that renders the values
+// the code under test returned for it. The rendering is taken now and again
+// after the next case has made its calls; a value that reads differently then
+// was rewritten by a later call (results that alias a shared buffer, a cache,
+// an argument). Every third case is held; the check of a held case happens at
+// the next Hold call. In replay mode only one case runs, so such a violation
+// is reproduced by replaying the shard up to the later of the two cases.
+func (c *Ctx) Hold(enc string, render func() string) {
+	if h := c.held; h != nil {
+		c.held = nil
+		var now string
+		if p, val, _, _ := Guard(func() { now = h.render() }); p {
+			now = fmt.Sprintf("panic while reading the held result: %v", val)
+		}
+		if now != h.text {
+			c.Violate("result-changed-by-later-call", h.enc+"\n  -- then --\n"+enc, h.text, now)
+		}
+		c.res.Buckets["results-held-across-calls"]++
+	}
+	c.holdTick++
+	if c.holdTick%3 != 0 || c.Replaying() {
+		return
+	}
+	var text string
+	if p, _, _, _ := Guard(func() { text = render() }); p {
+		return
+	}
+	c.held = &heldResult{enc: enc, render: render, text: text}
 }
 
 // NewCtx creates a worker context.
@@ -147,6 +191,8 @@ func (c *Ctx) SubRng(name string) *rand.Rand {
 // reports whether this shard executes it.
 func (c *Ctx) NextShared() bool {
 	c.seq++
+	c.res.SharedCalls++
+	c.res.SharedTrace = c.res.SharedTrace*1099511628211 + uint64(c.seq)
 	if c.ReplaySeq >= 0 {
 		return c.seq == c.ReplaySeq
 	}
